@@ -49,7 +49,7 @@ def isinstance_arms(fn: FunctionInfo, param: str):
         for i, st in enumerate(stmts):
             if isinstance(st, ast.Expr) and isinstance(st.value, ast.Constant):
                 continue
-            if isinstance(st, ast.Assign) and len(st.targets) == 1 and isinstance(st.targets[0], ast.Name) and is_type_of_param(st.value) and not arms:
+            if isinstance(st, ast.Assign) and len(st.targets) == 1 and isinstance(st.targets[0], ast.Name) and is_type_of_param(st.value):
                 tpvars.add(st.targets[0].id)
                 continue
             if isinstance(st, ast.If):
